@@ -130,6 +130,29 @@ PROPS["C11"] = {
     "assumptions": ["commit-time regime for the unconditional statements"],
 }
 
+PROPS["C16"] = {
+    "props": ["OsmVerif.Props.C16"],
+    "gens": [],
+    "required_theorems": [],
+    "technique": "Lean 4 theorems about a hand-written executable model of mputil.Join/Ring and osmgeojson.buildPolygon over lattice points (ghost field for the untrimmed oriented line); tied by a differential line protocol through osmgeojson.Convert and by a ground-truth ring oracle",
+    "level_text": "TODO",
+    "level_note": "TODO",
+    "design_ref": "DESIGN.md §5 C16/C17",
+    "trusted_base": ["models Model/Geo.lean, Model/Convert.lean are hand-written; tie = differential stream through osmgeojson.Convert"],
+    "assumptions": ["lattice (integer degree) coordinates so that float arithmetic is exact", "no vertex at (0,0)"],
+}
+PROPS["C17"] = {
+    "props": ["OsmVerif.Props.C17"],
+    "gens": [],
+    "required_theorems": [],
+    "technique": "Lean 4 theorems about a hand-written executable model of osmgeojson.Convert (relation, way and node passes, options); tied by a differential line protocol and an independent element-to-feature oracle",
+    "level_text": "TODO",
+    "level_note": "TODO",
+    "design_ref": "DESIGN.md §5 C16/C17",
+    "trusted_base": ["models Model/Geo.lean, Model/Convert.lean are hand-written; tie = differential stream through osmgeojson.Convert"],
+    "assumptions": ["lattice coordinates", "distinct element ids per kind"],
+}
+
 NOT_APPLICABLE = {pid: "check not built yet in this session (planned, see DESIGN.md §9); no claim is made" for pid in
                   ["C%02d" % i for i in range(1, 21)] if pid not in PROPS}
 
